@@ -32,7 +32,7 @@ EPS = [((192, 0, 2, 50), 4000), ((192, 0, 2, 51), 4001)]
 def bounds(tier):
     k = "K<=2 over the full alphabet and K=3 over the core alphabet (eventgroup 5, counter 0, endpoint 1, two subscribers)"
     if tier == "thorough":
-        k = "K<=3 over the full alphabet and K=4 over the core alphabet"
+        k = "K<=2 over the full alphabet, K=3 over the medium alphabet (two eventgroups, one counter/endpoint, two subscribers) and K=4 over the core alphabet without reboot evidence from the second subscriber"
     return {"H06": k + "; alphabet: Subscribe/StopSubscribe(eventgroup in 2, counter in {0,1}, endpoint in 2, subscriber in 2, with/without reboot evidence), reboot-only message, stop/start of the service, stop/start of the announcer, connection loss; Subscribe TTL symbolic 1..0xFFFFFF; listener accept/reject symbolic per call; gaps 0..2^40 ticks; delivery iteration/batching symbolic"}
 
 
@@ -87,7 +87,9 @@ def _valid(seq):
 def cases(tier, seed):
     full = _alphabet([0, 1], [0, 1], [0, 1])
     core = _alphabet([0], [0], [0])
-    plan = [(full, 1), (full, 2), (core, 3)] if tier == "quick" else [(full, 1), (full, 2), (full, 3), (core, 4)]
+    medium = _alphabet([0, 1], [0], [0])
+    tiny = [e for e in core if not (e[0] in ("sub", "stopsub") and e[4] == "Q" and e[5]) and e != ["rebootmsg", "Q"]]
+    plan = [(full, 1), (full, 2), (core, 3)] if tier == "quick" else [(full, 1), (full, 2), (medium, 3), (tiny, 4)]
     out, seen = [], set()
     for alpha, k in plan:
         for combo in itertools.product(alpha, repeat=k):
